@@ -22,6 +22,7 @@ import EAO.Driver.FixSplit
 import EAO.Driver.SplitStorage
 import EAO.Driver.ObSplit
 import EAO.Driver.DstGrid
+import EAO.Driver.BlockSplit
 /-!
 Line-protocol driver: one JSON request per line on stdin, one JSON response per line on stdout.
 `{"ok": …}` or `{"err": "<class>"}`.  Unknown or ill-formed requests are answered with
@@ -31,7 +32,7 @@ operations it knows.
 open Lean EAO EAO.Driver
 
 def handlers : List (String → Json → Option (Except String Json)) :=
-  [handleCore, handleGrid, handleOrderBook, handleContract, handleStorage, handleSlp, handleCHP, handleScaled, handlePeriodic, handleSplit, handleState, handlePrices, handleLinked, handleCoarseBuild, handleSplitBuild, handleParams, handleWrapWindow, handleCoarseStorage, handleCostsOnly, handlePriceSplit, handleFixSplit, handleSplitStorage, handleObSplit, handleDstGrid]
+  [handleCore, handleGrid, handleOrderBook, handleContract, handleStorage, handleSlp, handleCHP, handleScaled, handlePeriodic, handleSplit, handleState, handlePrices, handleLinked, handleCoarseBuild, handleSplitBuild, handleParams, handleWrapWindow, handleCoarseStorage, handleCostsOnly, handlePriceSplit, handleFixSplit, handleSplitStorage, handleObSplit, handleDstGrid, handleBlockSplit]
 
 def handle (j : Json) : Except String Json := do
   let op ← field j "op" Json.getStr?
